@@ -986,3 +986,155 @@ Proof.
     rewrite firstn_length, scan_ends_length in Hi.
     rewrite nth_firstn_lt, scan_ends_nth in Hx by lia. pose proof (pre_pos ps (S i) Hsch ltac:(lia)). lia.
 Qed.
+
+(* ---------------------------------------------------------------------------------- *)
+(* end to end: the setter's operation sequence on the representation of a record      *)
+(* ---------------------------------------------------------------------------------- *)
+
+Lemma concat_nil_nth (l : list str) : concat l = [] -> forall i, nth i l [] = [].
+Proof.
+  induction l as [|x l IH]; intros H i; [destruct i; reflexivity|].
+  cbn [concat] in H. apply app_eq_nil in H. destruct H as [Hx Hl]. destruct i; [exact Hx|]. apply IH. exact Hl.
+Qed.
+
+Lemma tail_dichotomy (ps : list str) k :
+  (forall j, (k < j)%nat -> nth j ps [] = []) \/ pre (S k) ps < len (concat ps).
+Proof.
+  destruct (concat (skipn (S k) ps)) as [|x t] eqn:E.
+  - left. intros j Hj. pose proof (concat_nil_nth _ E (j - S k)) as H. rewrite nth_skipn_add in H.
+    replace (S k + (j - S k))%nat with j in H by lia. exact H.
+  - right. rewrite (concat_split ps (S k)), len_app, E, len_cons. unfold pre. lia.
+Qed.
+
+Lemma setp_PW_tail ps n k s : PW ps n -> (1 <= k < 11)%nat -> (forall j, (k < j)%nat -> nth j ps [] = []) ->
+  PW (setp ps k s) (S k).
+Proof.
+  intros [Hlen Hn Hsch Htail] Hk Htl. split.
+  - unfold setp. rewrite splice_length; lia.
+  - lia.
+  - rewrite nth_setp by lia. destruct (Nat.eqb_spec 0 k); [lia|exact Hsch].
+  - intros j Hj. rewrite nth_setp by lia. destruct (Nat.eqb_spec j k); [lia|]. apply Htl. lia.
+Qed.
+
+(* PORT / QUERY / FRAGMENT, whichever of the three ways url_setter::start_part takes: up to the trailing-offset
+   freedom the result is the representation of the piece list with piece k set *)
+Theorem setter_simple_any ps n f c file k v :
+  PW ps n -> (6 <= n)%nat -> (k = P_PORT \/ k = P_QUERY \/ k = P_FRAGMENT) -> (k = P_PORT -> v <> []) ->
+  norm_tail (s_r (run true (init_sst (conc ps n f c) file) [OStartPart k; OAppend v; OSavePart])) =
+  conc (setp ps k (sepc k ++ v)) 11 f c.
+Proof.
+  intros HPW Hn6 Hk Hv.
+  assert (Hk10 : (6 <= k <= 10)%nat) by (unfold P_PORT, P_QUERY, P_FRAGMENT in Hk; lia).
+  destruct (tail_dichotomy ps k) as [Htl|Hfollow].
+  - destruct (setter_write_simple ps n f c file k v HPW Hn6 Hk Htl) as [Hr _]. cbv zeta in Hr. rewrite Hr.
+    apply norm_tail_conc. apply (setp_PW_tail ps n); auto. lia.
+  - assert (Hkn : (k < n)%nat).
+    { destruct (Nat.lt_ge_cases k n) as [H|H]; [exact H|]. exfalso.
+      destruct HPW as [Hlen Hn Hsch Htail]. rewrite (pre_tail ps n (S k) Htail) in Hfollow by lia. lia. }
+    assert (Hk2 : k = P_PORT \/ k = P_QUERY).
+    { destruct Hk as [H|[H|H]]; auto. exfalso. subst k. unfold P_FRAGMENT in *.
+      destruct HPW as [Hlen Hn Hsch Htail]. rewrite (pre_all ps 11) in Hfollow by lia. lia. }
+    destruct (setter_splice_simple ps n f c file k v HPW Hk2 Hkn Hfollow Hv) as [Hr _]. cbv zeta in Hr. rewrite Hr.
+    apply norm_tail_conc. pose proof (setp_PW ps n k (sepc k ++ v) HPW ltac:(lia)) as HP.
+    replace (Nat.max n (S k)) with n in HP by lia. exact HP.
+Qed.
+
+Lemma repr_of_conc u : repr_of u = conc (pieces u) 11 (flags_of u) (segs_of u).
+Proof.
+  unfold repr_of, conc. rewrite serialize_pieces.
+  pose proof (ends_of_full (pieces u)) as H. rewrite (Hl u) in H. rewrite H. reflexivity.
+Qed.
+
+Lemma pieces_PW u : scheme u <> [] -> PW (pieces u) 11.
+Proof.
+  intro Hs. split; [apply Hl|lia|exact Hs|].
+  intros k Hk. apply nth_overflow. rewrite Hl. exact Hk.
+Qed.
+
+Lemma norm_tail_set_flag r fl : norm_tail (set_flag r fl) = set_flag (norm_tail r) fl.
+Proof. reflexivity. Qed.
+
+Lemma run_snoc setter s ops o : run setter s (ops ++ [o]) = step setter (run setter s ops) o.
+Proof. unfold run. rewrite fold_left_app. reflexivity. Qed.
+
+Lemma flags_set_fragment u f : N.lor (flags_of u) 1024 = flags_of (set_fragment u (Some f)).
+Proof.
+  unfold flags_of, set_fragment, has_opaque_path. cbn [uhost port query fragment path is_some].
+  destruct (uhost u) as [[| | | |]|]; destruct (port u); destruct (query u); destruct (fragment u); destruct (path u); reflexivity.
+Qed.
+
+Lemma flags_set_query u q : N.lor (flags_of u) 512 = flags_of (set_query u (Some q)).
+Proof.
+  unfold flags_of, set_query, has_opaque_path. cbn [uhost port query fragment path is_some].
+  destruct (uhost u) as [[| | | |]|]; destruct (port u); destruct (query u); destruct (fragment u); destruct (path u); reflexivity.
+Qed.
+
+Lemma flags_set_port u p : is_some (uhost u) = true -> N.lor (flags_of u) 64 = flags_of (set_port u (Some p)).
+Proof.
+  unfold flags_of, set_port, has_opaque_path. cbn [uhost port query fragment path is_some].
+  destruct (uhost u) as [[| | | |]|]; [| | | | |discriminate]; intros _;
+  destruct (port u); destruct (query u); destruct (fragment u); destruct (path u); reflexivity.
+Qed.
+
+(* hash setter with a non-empty value: fragment_state with state override = start_part(FRAGMENT), the encoded
+   value, save_part, set_flag(FRAGMENT_FLAG) *)
+Theorem hash_setter_repr u file f : scheme u <> [] ->
+  norm_tail (s_r (run true (init_sst (repr_of u) file) [OStartPart P_FRAGMENT; OAppend f; OSavePart; OSetFlag 1024])) =
+  repr_of (set_fragment u (Some f)).
+Proof.
+  intro Hs.
+  change [OStartPart P_FRAGMENT; OAppend f; OSavePart; OSetFlag 1024]
+    with ([OStartPart P_FRAGMENT; OAppend f; OSavePart] ++ [OSetFlag 1024]).
+  rewrite run_snoc. cbn [step s_r w_r]. rewrite norm_tail_set_flag, repr_of_conc.
+  rewrite (setter_simple_any (pieces u) 11 (flags_of u) (segs_of u) file P_FRAGMENT f (pieces_PW u Hs) ltac:(lia)
+             ltac:(auto) ltac:(unfold P_FRAGMENT, P_PORT; lia)).
+  rewrite repr_of_conc, pieces_set_fragment. unfold set_flag, w_flags, conc. cbn [r_norm r_ends r_flags r_segs].
+  rewrite (flags_set_fragment u f). reflexivity.
+Qed.
+
+(* search setter with a value (possibly empty after the leading '?') *)
+Theorem search_setter_repr u file q : scheme u <> [] ->
+  norm_tail (s_r (run true (init_sst (repr_of u) file) [OStartPart P_QUERY; OAppend q; OSavePart; OSetFlag 512])) =
+  repr_of (set_query u (Some q)).
+Proof.
+  intro Hs.
+  change [OStartPart P_QUERY; OAppend q; OSavePart; OSetFlag 512]
+    with ([OStartPart P_QUERY; OAppend q; OSavePart] ++ [OSetFlag 512]).
+  rewrite run_snoc. cbn [step s_r w_r]. rewrite norm_tail_set_flag, repr_of_conc.
+  rewrite (setter_simple_any (pieces u) 11 (flags_of u) (segs_of u) file P_QUERY q (pieces_PW u Hs) ltac:(lia)
+             ltac:(auto) ltac:(unfold P_QUERY, P_PORT; lia)).
+  rewrite repr_of_conc, pieces_set_query. unfold set_flag, w_flags, conc. cbn [r_norm r_ends r_flags r_segs].
+  rewrite (flags_set_query u q). reflexivity.
+Qed.
+
+(* port setter with a port that is not the scheme's default *)
+Theorem port_setter_repr u file p : scheme u <> [] -> is_some (uhost u) = true ->
+  norm_tail (s_r (run true (init_sst (repr_of u) file) [OStartPart P_PORT; OAppend (dec_str p); OSavePart; OSetFlag 64])) =
+  repr_of (set_port u (Some p)).
+Proof.
+  intros Hs Hh.
+  change [OStartPart P_PORT; OAppend (dec_str p); OSavePart; OSetFlag 64]
+    with ([OStartPart P_PORT; OAppend (dec_str p); OSavePart] ++ [OSetFlag 64]).
+  rewrite run_snoc. cbn [step s_r w_r]. rewrite norm_tail_set_flag, repr_of_conc.
+  rewrite (setter_simple_any (pieces u) 11 (flags_of u) (segs_of u) file P_PORT (dec_str p) (pieces_PW u Hs) ltac:(lia)
+             ltac:(auto) ltac:(intros _; apply dec_str_nonempty)).
+  rewrite repr_of_conc, (pieces_set_port u (Some p) Hh). unfold set_flag, w_flags, conc. cbn [r_norm r_ends r_flags r_segs].
+  rewrite (flags_set_port u p Hh). reflexivity.
+Qed.
+
+(* username / password setters (canHaveUsernamePasswordPort: the host is not null and not empty) *)
+Theorem username_setter_repr u file v : scheme u <> [] -> is_some (uhost u) = true -> nth P_HOST (pieces u) [] <> [] ->
+  s_r (run true (init_sst (repr_of u) file) [OStartPart P_USERNAME; OAppend v; OSavePart]) = repr_of (set_username u v).
+Proof.
+  intros Hs Hh Hhost. rewrite repr_of_conc.
+  destruct (setter_username (pieces u) 11 (flags_of u) (segs_of u) file v (pieces_PW u Hs) ltac:(lia) Hhost) as [Hr _].
+  cbv zeta in Hr. rewrite Hr, repr_of_conc, (pieces_set_username u v Hh). reflexivity.
+Qed.
+
+Theorem password_setter_repr u file v : scheme u <> [] -> is_some (uhost u) = true -> nth P_HOST (pieces u) [] <> [] ->
+  s_r (run true (init_sst (repr_of u) file) [OStartPart P_PASSWORD; OAppend v; OSavePart]) = repr_of (set_password u v).
+Proof.
+  intros Hs Hh Hhost. rewrite repr_of_conc.
+  destruct (setter_password (pieces u) 11 (flags_of u) (segs_of u) file v (pieces_PW u Hs) ltac:(lia) Hhost) as [Hr _].
+  cbv zeta in Hr. rewrite Hr, repr_of_conc, (pieces_set_password u v Hh). reflexivity.
+Qed.
